@@ -118,32 +118,40 @@ def run_d(crate, harness_specs, tier, seed, result):
             t = hs.get(tier) or hs.get("quick")
             if t is None:
                 continue
-            hid = hs.get("id", hs["name"])
-            out = binary + f".{hid}.json"
-            cmd = [binary, hs["name"], "--threads", str(t.get("threads", NCPU)), "--max-paths", str(t.get("max_paths", 100000)),
-                   "--seed", str(seed), "--split-depth", str(t.get("split_depth", 6)), "--out", out,
-                   "--crosscheck-every", str(t.get("crosscheck_every", 211))]
-            env = dict(os.environ)
-            for k, v in t.get("env", {}).items():
-                env[k] = str(v)
-            t0 = time.time()
-            try:
-                p = subprocess.run(cmd, capture_output=True, text=True, timeout=t.get("timeout", 3600), env=env)
-            except subprocess.TimeoutExpired:
-                result["inconclusive"].append(f"{hs['name']}: timeout after {t.get('timeout', 3600)} s")
-                continue
-            if p.returncode != 0 or not os.path.exists(out):
-                result["inconclusive"].append(f"{hs['name']}: harness binary failed: {p.stderr[-400:]}")
-                continue
-            with open(out) as f:
-                rep = json.load(f)[0]
-            os.unlink(out)
-            absorb_d(rep, hs, crate, result, time.time() - t0, features)
+            # thorough tiers may repeat a harness under further hasher seeds (other HashMap iteration orders)
+            for extra_seed in t.get("seeds", [0]):
+                hs_run = dict(hs)
+                hid = hs.get("id", hs["name"]) + (f"@seed+{extra_seed}" if extra_seed else "")
+                hs_run["id"] = hid
+                out = binary + f".{hid}.json"
+                cmd = [binary, hs["name"], "--threads", str(t.get("threads", NCPU)), "--max-paths", str(t.get("max_paths", 100000)),
+                       "--seed", str(seed + extra_seed), "--split-depth", str(t.get("split_depth", 6)), "--out", out,
+                       "--crosscheck-every", str(t.get("crosscheck_every", 211))]
+                run_one_d(cmd, out, hs_run, t, crate, result, features)
     finally:
         try:
             os.unlink(binary)
         except OSError:
             pass
+
+
+def run_one_d(cmd, out, hs, t, crate, result, features):
+    env = dict(os.environ)
+    for k, v in t.get("env", {}).items():
+        env[k] = str(v)
+    t0 = time.time()
+    try:
+        p = subprocess.run(cmd, capture_output=True, text=True, timeout=t.get("timeout", 3600), env=env)
+    except subprocess.TimeoutExpired:
+        result["inconclusive"].append(f"{hs['name']}: timeout after {t.get('timeout', 3600)} s")
+        return
+    if p.returncode != 0 or not os.path.exists(out):
+        result["inconclusive"].append(f"{hs['name']}: harness binary failed: {p.stderr[-400:]}")
+        return
+    with open(out) as f:
+        rep = json.load(f)[0]
+    os.unlink(out)
+    absorb_d(rep, hs, crate, result, time.time() - t0, features)
 
 
 def absorb_d(rep, hs, crate, result, wall, features):
